@@ -2161,6 +2161,14 @@ def select_expr(body, steps):
             cur = find_let(cur, st[1])
             if cur is None:
                 raise TranslateError('fragment: let %s not found' % st[1])
+        elif isinstance(st, tuple) and st[0] == 'assert':
+            # the condition of the k-th `assert!` / `debug_assert!` of the (top-level) block, k from 0
+            if cur[0] != 'block':
+                raise TranslateError('fragment: assert searched in a non-block')
+            conds = [x[1] for x in cur[1] if x[0] == 'assert']
+            if st[1] >= len(conds):
+                raise TranslateError('fragment: assertion %d not found' % st[1])
+            cur = conds[st[1]]
         elif st in ('then', 'else'):
             if cur[0] != 'if' or (st == 'else' and cur[3] is None):
                 raise TranslateError('fragment: %s of a non-if' % st)
